@@ -6,11 +6,12 @@ All theorems are over an arbitrary field `K` with decidable equality and quantif
 Theorems about `Givaro.Model.Poly.*` speak about the model of the code (as repaired by fixes/C08_1); the certificate
 theorems justify the checks the driver applies to the implementation's output for division, gcd and inverse.
 
-Not proved here (see the check's `assumptions`): the Karatsuba range product (`karaStep`, and `mulR` above the
-threshold) is modelled and compared with the implementation, but its exactness is decided per case by the reference
-product `smul`, whose correctness is `smul_exact` below.  The schoolbook product is proved (`stdmul_exact`).
+The schoolbook and Karatsuba range products are proved exact on every range shape (`stdmul_exact`, `mulR_exact`,
+`mul_exact`, `karamul_full_eq_stdmul`).
 -/
 import GivaroModel.Lemmas.PolyLemmas
+import GivaroModel.Lemmas.PolyKara
+import GivaroModel.Lemmas.PolyMisc
 
 open Polynomial
 set_option linter.unusedSectionVars false
@@ -118,19 +119,120 @@ example : ∃ (n : Nat) (P : List ℚ), 0 < n ∧ P ≠ [] := ⟨1, [1], by deci
 /-- the public `stdmul(R,P,Q)` is the exact product for all operands (empty, un-normalised, any degree) -/
 theorem stdmul_public_exact (P Q : List K) : toPoly (stdmul P Q) = toPoly P * toPoly Q := toPoly_stdmul P Q
 
-/-- PARTIAL.  Full statement (Tier A `karamul_full_eq_stdmul` + dispatch):
-      `∀ thr P Q, toPoly (mul thr P Q) = toPoly P * toPoly Q`.
-    Proved here only for the operands on which the generic `mul` selects the schoolbook algorithm (one operand with at
-    most `KARA_THRESHOLD` coefficients); the Karatsuba branch (`karaStep`) is modelled and tied to the code but its
-    exactness is decided per generated case by the reference product, not by this theorem. -/
-theorem mul_exact_partial (thr : Nat) (P Q : List K) (h : P.length ≤ thr ∨ Q.length ≤ thr) :
-    toPoly (mul thr P Q) = toPoly P * toPoly Q := by
-  have e : mul thr P Q = stdmul P Q := by
-    unfold mul stdmul
-    rw [mulR_of_le thr _ _ P Q h]
-  rw [e, toPoly_stdmul]
+/-- Tier B `karamul_trunc_exact` — the generic range product `mul(R,Rbeg,Rend,P,Pbeg,Pend,Q,Qbeg,Qend)` (threshold dispatch,
+    Karatsuba recursion with `halfP, halfQ, half, halfR, highs, rrems, midts`, every recursion budget) on **every range
+    shape**: an R range of any length `n` (truncated or over-long), any P and Q ranges.  It writes at most `n` coefficients
+    and they are the coefficients `0 … n-1` of `P·Q`.  Hypothesis: `KARA_THRESHOLD ≥ 1` (with threshold 0 the C++ recursion
+    does not terminate) — or, for threshold 0, a full-length range. -/
+theorem mulR_exact (thr fuel n : Nat) (P Q : List K) (h : 1 ≤ thr ∨ P.length + Q.length ≤ n + 1) :
+    (mulR thr fuel n P Q).length ≤ n ∧
+    ∀ k, k < n → (mulR thr fuel n P Q).getD k 0 = (toPoly P * toPoly Q).coeff k :=
+  mulR_spec thr fuel n P Q h
 
-example : ∃ (thr : Nat) (P Q : List ℚ), P.length ≤ thr ∨ Q.length ≤ thr := ⟨50, [1, 2], [3], Or.inl (by decide)⟩
+example : ∃ (thr n : Nat) (P Q : List ℚ), 1 ≤ thr ∨ P.length + Q.length ≤ n + 1 := ⟨50, 3, [1], [2], Or.inl (by decide)⟩
+
+/-- one Karatsuba level on every range shape, given an exact multiplier for the three recursive calls -/
+theorem karaStep_exact (thr : Nat) (mul : Nat → List K → List K → List K)
+    (hmul : ∀ m A B, Adm thr m A B → MulSpec mul m A B) (n : Nat) (P Q : List K) (hadm : Adm thr n P Q)
+    (hcase : 1 ≤ min (P.length / 2) (Q.length / 2) ∨ P.length + Q.length ≤ n + 1) :
+    (karaStep mul n P Q).length = n ∧
+    ∀ k, k < n → (karaStep mul n P Q).getD k 0 = (toPoly P * toPoly Q).coeff k :=
+  Givaro.Lemmas.Poly.karaStep_exact thr mul hmul n P Q hadm hcase
+
+example : ∃ (n : Nat) (P Q : List ℚ), Adm 50 n P Q ∧ (1 ≤ min (P.length / 2) (Q.length / 2) ∨ P.length + Q.length ≤ n + 1) :=
+  ⟨3, [1, 2], [3, 4], Or.inl (by decide), Or.inl (by decide)⟩
+
+/-- Tier A: the generic `mul(R,P,Q)` is the exact product — every threshold, every fuel the model uses, every operand
+    (empty, un-normalised, any degree, balanced or not) -/
+theorem mul_exact (thr : Nat) (P Q : List K) : toPoly (mul thr P Q) = toPoly P * toPoly Q := toPoly_mul thr P Q
+
+/-- Tier A `karamul_full_eq_stdmul`: forcing the first Karatsuba level gives the same polynomial as the schoolbook
+    product, for every threshold and all operands (including operands of one coefficient, where `half = 0`) -/
+theorem karamul_full_eq_stdmul (thr : Nat) (P Q : List K) : toPoly (karamul thr P Q) = toPoly (stdmul P Q) := by
+  rw [toPoly_karamul, toPoly_stdmul]
+
+theorem karamul_exact (thr : Nat) (P Q : List K) : toPoly (karamul thr P Q) = toPoly P * toPoly Q :=
+  toPoly_karamul thr P Q
+
+/-- Tier B `sqr_exact`: the dedicated squaring `sqr(R,P)` — `stdsqr` (odd/even coefficient loops with the doubling
+    trick), `sqrrec` (`Pl²`, `Ph²`, `+= 2·Pl·Ph` at offset `half`) and the `SQR_THRESHOLD` dispatch with every recursion
+    budget — is the exact square, for every operand.  Hypothesis: the threshold is at least 1 (with 0 the C++ forms an
+    iterator before `Rbeg`). -/
+theorem sqr_exact (thr : Nat) (hthr : 1 ≤ thr) (P : List K) : toPoly (sqr thr P) = toPoly P * toPoly P :=
+  toPoly_sqr thr hthr P
+
+example : ∃ thr : Nat, 1 ≤ thr := ⟨50, by decide⟩
+
+/-- the schoolbook square alone (any operand) -/
+theorem stdsqr_exact (P : List K) : toPoly (stdsqr (1 + 1) P) = toPoly P * toPoly P := toPoly_stdsqr P
+
+/-- the fused forms are exact (they are compositions of `mul`, `addin`, `subin`, `sub`, `neg`) -/
+theorem fused_exact (thr : Nat) (R A X' Y : List K) (c : K) :
+    toPoly (axpy thr A X' Y) = toPoly A * toPoly X' + toPoly Y ∧
+    toPoly (axmy thr A X' Y) = toPoly A * toPoly X' - toPoly Y ∧
+    toPoly (maxpy thr A X' Y) = toPoly Y - toPoly A * toPoly X' ∧
+    toPoly (axpyin thr R A X') = toPoly R + toPoly A * toPoly X' ∧
+    toPoly (maxpyin thr R A X') = toPoly R - toPoly A * toPoly X' ∧
+    toPoly (axmyin thr R A X') = toPoly A * toPoly X' - toPoly R ∧
+    toPoly (axmyVal c X' Y) = C c * toPoly X' - toPoly Y ∧
+    toPoly (maxpyinVal R c X') = toPoly R - C c * toPoly X' ∧
+    toPoly (axmyinVal R c X') = C c * toPoly X' - toPoly R ∧
+    toPoly (mulin thr A X') = toPoly A * toPoly X' := by
+  refine ⟨?_, ?_, ?_, ?_, ?_, ?_, ?_, ?_, ?_, ?_⟩
+  · unfold axpy; rw [toPoly_addin, toPoly_mul]
+  · unfold axmy; rw [toPoly_subin, toPoly_mul]
+  · unfold maxpy; rw [toPoly_sub, toPoly_mul]
+  · unfold axpyin axpy assign; rw [toPoly_addin, toPoly_mul, toPoly_setdegree]; ring
+  · unfold maxpyin; rw [toPoly_subin, toPoly_mul]
+  · unfold axmyin negin maxpyin; rw [toPoly_neg, toPoly_subin, toPoly_mul]; ring
+  · unfold axmyVal; rw [toPoly_subin, toPoly_mulVal]; ring
+  · unfold maxpyinVal; rw [toPoly_subin, toPoly_mulVal]; ring
+  · unfold axmyinVal negin maxpyinVal; rw [toPoly_neg, toPoly_subin, toPoly_mulVal]; ring
+  · unfold mulin assign; rw [toPoly_setdegree, toPoly_mul]
+
+/-- `divmod(Q,R,A,B) = div(Q,A,B); maxpy(R,Q,B,A)`: whatever quotient `div` produced, the remainder the implementation
+    returns satisfies `A = B·Q + R` exactly (the degree bound is the part that depends on `div`) -/
+theorem divmod_identity (thr : Nat) (A B Qd : List K) :
+    toPoly A = toPoly B * toPoly Qd + toPoly (maxpy thr Qd B A) := by
+  unfold maxpy; rw [toPoly_sub, toPoly_mul]; ring
+
+/-! ### the Euclid loop of the extended gcd -/
+
+/-- Tier B (Euclid loop invariants): `gcd(F,S0,T0,A,B)` as written — early exits, monic normalisation of both operands,
+    `divmod = div; maxpy`, division of every new remainder and cofactor by the remainder's leading coefficient — run
+    with **any** function in place of `div`.  Whenever the loop finishes (`some`), the result divides both operands and
+    the cofactors satisfy the Bezout identity, so `F` is a greatest common divisor of `A` and `B`.
+    Not covered: that the loop does finish, which needs `deg (F - div(F,G)·G) < deg G` (Newton division, not modelled). -/
+theorem gcdext_loop_sound (thr : Nat) (divf : List K → List K → List K) (fuel : Nat) (A B F' S' T' : List K)
+    (h : gcdext thr divf fuel A B = some (F', S', T')) :
+    toPoly S' * toPoly A + toPoly T' * toPoly B = toPoly F' ∧ toPoly F' ∣ toPoly A ∧ toPoly F' ∣ toPoly B ∧
+    ∀ E : K[X], E ∣ toPoly A → E ∣ toPoly B → E ∣ toPoly F' := by
+  obtain ⟨hb, hA, hB⟩ := gcdext_sound thr divf fuel A B F' S' T' h
+  refine ⟨hb, hA, hB, ?_⟩
+  intro E hEA hEB
+  rw [← hb]
+  exact dvd_add (dvd_mul_of_dvd_right hEA _) (dvd_mul_of_dvd_right hEB _)
+
+example : ∃ (A B F' S' T' : List ℚ), gcdext 50 (fun _ _ => []) 5 A B = some (F', S', T') :=
+  ⟨[], [1], _, _, _, rfl⟩
+
+/-! ### reversal and composition with X^b -/
+
+/-- `reverse` / `reversein` reflect the denoted polynomial with respect to the stored size (`X^(size-1)·P(1/X)`) -/
+theorem reverse_exact (Q : List K) : toPoly (Model.Poly.reverse Q) = (toPoly Q).reflect (Q.length - 1) :=
+  toPoly_reverse Q
+
+/-- on normalised storage this is the classical reversal `X^deg·P(1/X)` -/
+theorem reverse_exact_normal (Q : List K) (hn : Normal Q) : toPoly (Model.Poly.reverse Q) = (toPoly Q).reverse :=
+  toPoly_reverse_of_normal Q hn
+
+example : ∃ Q : List ℚ, Normal Q := ⟨[1, 2], by simp [Normal]⟩
+
+/-- `power_compose(W,P,b)` is `P(X^b)` for every `b ≥ 1` and every storage of `P` -/
+theorem compose_exact (P : List K) (b : Nat) (hb : 1 ≤ b) : toPoly (powerCompose P b) = (toPoly P).comp (X ^ b) :=
+  toPoly_powerCompose P b hb
+
+example : ∃ b : Nat, 1 ≤ b := ⟨1, le_refl 1⟩
 
 /-! ### certificates: what the driver checks on the implementation's output determines what the property asks -/
 
